@@ -163,7 +163,7 @@ def mix_owned(rng, ops):
 
 # ---------------------------------------------------------------------------
 
-def big_file(fmt, rng, crlf=False):
+def big_file(fmt, rng, crlf=False, tiny=False):
     """a WELL-FORMED file of 300-450 KB -- several times the default buffer size (64 KiB) -- with records of very different
     sizes, among them two that do not fit into 64 KiB; returned with the lines the specification gives for it (the
     extracted model computes with unary numbers and cannot be run at this size, so the expectation is computed here,
@@ -175,8 +175,11 @@ def big_file(fmt, rng, crlf=False):
     line = 1
     i = 0
     giants = {rng.range(3, 10): 70000 + rng.below(3000), rng.range(20, 40): 140000 + rng.below(3000)}
-    while len(text) < 300000 or i <= max(giants):
-        size = giants.get(i) or rng.choice([0, 1, 7, 60, 61, 300, 1000, 2500])
+    if tiny:
+        giants = {5: 70000}
+    while len(text) < (450000 if tiny else 300000) or i <= max(giants):
+        # tiny: tens of thousands of records of a few bytes -- line numbers beyond 16 bits, sets of thousands of records
+        size = giants.get(i) or (rng.choice([0, 1, 2, 3]) if tiny else rng.choice([0, 1, 7, 60, 61, 300, 1000, 2500]))
         head = b'r%d len=%d' % (i, size) if rng.chance(3, 4) else b'r%d' % i
         pos = '%d:%d' % (line, len(text))
         if fmt == 'fa':
@@ -480,7 +483,24 @@ class C04(Prop):
                 ops = []
                 for _ in range(len(spec) + 4):
                     ops.append(rng.choice(['S0', 'S1', 'N', 'O', 'E0.2', 'E1.50', 'E0.400', 'I0', 'N']))
+                # "all that is left": exact counts that no input can satisfy (the largest usize, 10^12)
+                j = rng.below(3)
+                ops[j:j] = [rng.choice(['E0.18446744073709551615', 'E1.1000000000000'])]
                 built.append((gen.mkcase(f, cap, text, None, None, 'std', ops + ['S0', 'N']), spec))
+        # the same huge counts on small files (the model takes the count as a unary number, so these run on the
+        # implementation only; the Spec lines come from a twin case without the huge count)
+        small, twins = [], []
+        for f in self.fmts:
+            for _ in range(40 if tier == 'quick' else 400):
+                cap = rng.choice([3, 8, 16, 64])
+                text = gen.fasta_file(rng, cap) if f == 'fa' else gen.fastq_file(rng, cap)
+                k = gen.n_items_bound(f, text)
+                ops = [rng.choice(['N', 'S0', 'E0.2', 'O']) for _ in range(rng.below(3))] + \
+                      [rng.choice(['E0.18446744073709551615', 'E1.1000000000000', 'E0.4294967296'])] + ['N', 'S1', 'N']
+                small.append(gen.mkcase(f, cap, text, gen.rnd_chunking(rng, len(text)), None, 'std', ops))
+                twins.append(gen.mkcase(f, cap, text, None, None, 'std', ['N'] * (k + 2)))
+        specs = [r['spec'] for r in vlib.run_cases(twins, self.id + '_hugetwin', model=True, impl=False)]
+        built += list(zip(small, specs))
         ex = lambda r: set_discipline(r) + iter_contract(r)
         return run_big(self, 'big', stats, built, level='kind', check_pos=False, extra_oracle=ex), {'big_file_cases': len(built)}
 
@@ -569,7 +589,60 @@ class C05(Prop):
                 for _ in range(6):
                     ops += ['J%d' % rng.below(k), rng.choice(['N', 'S0', 'E0.3']), 'P', 'N', 'P']
                 built.append((gen.mkcase(f, cap, text, None, None, 'std', ops), spec))
-        return run_big(self, 'big', stats, built, level='kind', check_pos=True), {'big_file_cases': len(built)}
+        F = run_big(self, 'big', stats, built, level='kind', check_pos=True)
+        # offsets beyond 32 bits: a VIRTUAL source of 3 * 10^8 fixed-size records generated on the fly by the harness
+        # (9.6 / 19.2 GB, never materialised); seeks between records that are 2^32 bytes (+ a few records) apart, in both
+        # directions, near and far; every record read afterwards and every reported position is known in closed form
+        vcases = []
+        nrec = 300000000
+        for f in self.fmts:
+            rl = 32 if f == 'fa' else 64
+            for cap in ([4096, 65536] if tier == 'quick' else [64, 4096, 65536, 1000000]):
+                ops, cur = ['N'], 1
+                for _ in range(8):
+                    far = (1 << 32) // rl
+                    tgt = rng.choice([cur + far + rng.below(5), cur + 2 * far + rng.below(3), max(0, cur - far + rng.below(5)),
+                                      rng.below(nrec), cur + rng.below(40), rng.below(50)])
+                    tgt = min(max(0, tgt), nrec - 1)
+                    lines_per = 2 if f == 'fa' else 4
+                    ops += ['K%d.%d' % (lines_per * tgt + 1, rl * tgt), 'N', rng.choice(['N', 'S'])]
+                    cur = tgt + 2
+                vcases.append('vs %s %d %d %s' % (f, cap, nrec, ','.join(ops)))
+        for r in vlib.run_cases(vcases, self.id + '_virt', model=False):
+            stats['evaluations'] += 1
+            stats['distinct_nontrivial'] += 1
+            t = r['case'].split(' ')
+            f = t[1]
+            rl, lp = (32, 2) if f == 'fa' else (64, 4)
+            bad = []
+            idx = 0
+            ops = t[4].split(',')
+            if len(r['impl']) != len(ops):
+                bad.append('the virtual-source run did not complete: %s' % (r['impl'][-1:],))
+            for i, (op, l) in enumerate(zip(ops, r['impl'])):
+                if op.startswith('K'):
+                    idx = int(op[1:].split('.')[1]) // rl
+                    if l != 'K ok':
+                        bad.append('op#%d %s: %s' % (i, op, l[:80]))
+                elif idx >= int(t[3]):
+                    if not l.startswith(('N none', 'S none')):
+                        bad.append('op#%d behind the last record: %s' % (i, l[:70]))
+                        break
+                elif op == 'N':
+                    want = 'N rec %014d %s @%d:%d' % (idx, ''.join('ACGT'[(idx * 7 + j) % 4] for j in range(15)), lp * idx + 1, rl * idx)
+                    if l != want:
+                        bad.append('op#%d after a seek over more than 2^32 bytes or next to it: got %s, the record at the target is %s' % (i, l[:70], want))
+                        break
+                    idx += 1
+                else:
+                    m = re.match(r'^S set (\d+) (\d{14})$', l)
+                    if not m or int(m.group(2)) != idx or int(m.group(1)) < 1:
+                        bad.append('op#%d record set does not start with record %d: %s' % (i, idx, l[:70]))
+                        break
+                    idx += int(m.group(1))
+            if bad:
+                F.append(({'case': r['case'], 'impl': r['impl'], 'model': None, 'spec': [], 'noshrink': True}, bad))
+        return F, {'big_file_cases': len(built), 'virtual_source_cases': len(vcases)}
 
     def rule(self, tier):
         return ('structured random files: read with next / set / exact-set, position saved after every call, then 1-3 seeks '
@@ -681,6 +754,44 @@ class C17(Prop):
                     if x.encode() not in text:
                         bad.append('op#%d message does not contain the value %s' % (i, x))
         return bad
+
+    def extra(self, tier, rng, stats):
+        """an invalid FASTQ record FAR into a big file (after tens of thousands of records: its line number does not fit
+        into 16 bits, its byte offset not into 17): the error must be the one the same invalid record gives behind a
+        two-record prefix (that small twin runs through model and implementation like every other case), with the line
+        number moved by the difference of the two start lines.  Also FASTA: garbage after 70 000 blank lines."""
+        bads = [('sep', b'@bad one\nACGT\n-\nIIII\n@z\nA\n+\nI\n'), ('len', b'@bad two\nACGT\n+\nIII\n@z\nA\n+\nI\n'),
+                ('start', b'>bad\nACGT\n+\nIIII\n'), ('end', b'@bad four\nACGT\n+'), ('end2', b'@bad')]
+        small_prefix = b'@a\nAC\n+\nII\n@b\n\n+\n\n'          # 2 records, 8 lines
+        twins = vlib.run_cases([gen.mkcase('fq', 64, small_prefix + b, None, None, 'std', ['N'] * 5) for _, b in bads],
+                               self.id + '_twin', model=True)
+        F = []
+        built = []
+        for (name, b), tw in zip(bads, twins):
+            stats['evaluations'] += 1
+            bad0 = self.oracle(tw)
+            errs = [parse_line(l)['out'] for l in tw['impl'] if parse_line(l)['kind'] == 'err']
+            if bad0 or len(errs) != 1:
+                F.append((tw, bad0 or ['the small twin case did not produce exactly one error']))
+                continue
+            toks, _ = oracles.split_err(errs[0])
+            li = {'fq_is': 3, 'fq_sep': 3, 'fq_len': 4, 'fq_end': 2}[toks[1]]
+            for cap in ([65536] if tier == 'quick' else [65536, 1000]):
+                text, spec = big_file('fq', rng, False, tiny=True)
+                nl = 4 * len(spec)
+                t2 = list(toks)
+                t2[li] = str(int(toks[li]) - 8 + nl)
+                ops = [rng.choice(['N', 'N', 'S0', 'E0.700']) for _ in range(40)] + ['N'] * 3
+                # sets of hundreds of records first, then single reads; the error may arrive through either
+                built.append((gen.mkcase('fq', cap, text + b, None, None, 'std', ['S0'] * 6 + ['N'] * (len(spec) + 3)),
+                              spec + [' '.join(t2)]))
+        blanks = 70000
+        built.append((gen.mkcase('fa', 65536, b'\n' * blanks + b'x\n>a\nA\n', None, None, 'std', ['N', 'N']),
+                      ['err fa_is %d 120' % (blanks + 1)]))
+        built.append((gen.mkcase('fa', 65536, b'\r\n' * blanks + b'>a\nA\n', None, None, 'std', ['N', 'P', 'N']),
+                      ['rec h=61 l=/41 @%d:%d' % (blanks + 1, 2 * blanks)]))
+        F += run_big(self, 'big', stats, built, level='fields', check_pos=True)
+        return F, {'big_file_cases': len(built)}
 
     def nontrivial(self, res):
         return any(' err ' in l for l in res['impl'])
